@@ -89,7 +89,7 @@ def gen(rng, tier):
         ntask = rng.randint(0, 4 - nplug) if nplug < 4 else 0
         ntask = min(ntask, 3)
         base = {'pre_sys': rng.choice([None, 'h']), 'pre_thr': rng.choice([None, 'h']),
-                'no_trace': rng.random() < 0.3, 'nplug': nplug}
+                'no_trace': rng.random() < 0.3, 'nplug': nplug, 'update': rng.random() < 0.4}
         # a sequence with at least one shutdown of a started agent; all fault subsets of that shutdown
         tail = []
         tag = [2]
@@ -134,6 +134,17 @@ def gen(rng, tier):
             c = dict(base)
             c['ops'] = head + [sd, {'op': 'hit'}] + tail
             yield c
+        if rng.random() < 0.5:
+            # the trigger handler on its own: start/shutdown cycles with the application changing its hooks in between
+            ops, tagn = [], 2
+            for _ in range(rng.randint(1, 3)):
+                ops += [{'op': 'start'}, {'op': 'shutdown'}]
+                if rng.random() < 0.7:
+                    tagn += 2
+                    ops.append({'op': 'host_set', 'sys': rng.choice([None, tagn - 1]), 'thr': rng.choice([None, tagn])})
+            yield {'kind': 'handler', 'pre_sys': base['pre_sys'], 'pre_thr': base['pre_thr'], 'ops': ops}
+        if rng.random() < 0.08:
+            yield dict(OTHER_THREAD, own_hook=rng.random() < 0.5)       # labelled known-finding stream
         if rng.random() < 0.25:
             # separate stream: the first start fails while loading plugins, then is retried
             c = dict(base)
@@ -142,6 +153,22 @@ def gen(rng, tier):
             c['ops'] = [{'op': 'start'}, {'op': 'start'}, {'op': 'hit'},
                         {'op': 'shutdown', 'plugin_faults': [], 'task_faults': [], 'ntask': 0, 'cls': 'exc', 'running': False}]
             yield c
+
+
+# known finding C14/shutdown-on-another-thread: sys.settrace is per thread
+OTHER_THREAD = {'kind': 'other_thread', 'own_hook': True}
+
+
+def known_replays():
+    return [('C14/shutdown-on-another-thread',
+             'start() on thread A and shutdown() on thread B: sys.settrace acts on the calling thread only, so A keeps the '
+             'agent\'s trace function after the shutdown and B\'s own trace function is replaced by what A had before start',
+             dict(OTHER_THREAD))]
+
+
+def known_finding(case, obs):
+    # structural: shutdown is called on another thread than start (labelled stream only)
+    return 'C14/shutdown-on-another-thread' if case.get('kind') == 'other_thread' else None
 
 
 def corpus():
@@ -161,6 +188,12 @@ def corpus():
         # second cycle after the application changed its trace functions
         {'pre_sys': 'h', 'pre_thr': 'h', 'no_trace': False, 'nplug': 1,
          'ops': [{'op': 'start'}, dict(sd), {'op': 'host_set', 'sys': 3, 'thr': 4}, {'op': 'start'}, {'op': 'hit'}, dict(sd)]},
+        # restart after a shutdown while the service answers UPDATE (audit C14-1): start must not raise, hooks stay restored
+        {'pre_sys': 'h', 'pre_thr': None, 'no_trace': False, 'nplug': 1, 'update': True,
+         'ops': [{'op': 'start'}, {'op': 'hit'}, dict(sd), {'op': 'start'}, {'op': 'hit'}, dict(sd), {'op': 'hit'}]},
+        {'kind': 'handler', 'pre_sys': 'h', 'pre_thr': 'h',
+         'ops': [{'op': 'start'}, {'op': 'shutdown'}, {'op': 'host_set', 'sys': 3, 'thr': 4}, {'op': 'start'},
+                 {'op': 'shutdown'}]},
         # D19: the first plugin's shutdown raises
         {'pre_sys': 'h', 'pre_thr': None, 'no_trace': False, 'nplug': 3,
          'ops': [{'op': 'start'}, dict(sd, plugin_faults=[0], cls='exc')]},
@@ -195,7 +228,7 @@ def run_case(case, out):
     names = []
     for i in range(case['nplug']):
         ff = [None]
-        of = [bool(case.get('start_fails_first')) and i == 0]
+        of = [False]
         cls = make_plugin_class(f'P{i}', rec, ff, 0, of)
         setattr(mod, f'P{i}', cls)
         fail_flags.append(ff)
@@ -215,6 +248,18 @@ def run_case(case, out):
     sys.settrace(pre_sys)
     threading.settrace(pre_thr)
     states = []
+    import deep.api.deep as dmod
+    orig_load = dmod.load_plugins
+    if case.get('start_fails_first'):
+        # the first step of the first start fails (nothing is installed yet); the application retries
+        def failing_once(*a, **k):
+            dmod.load_plugins = orig_load
+            raise StartFails('plugins cannot be loaded')
+        dmod.load_plugins = failing_once
+    # the service: NO_CHANGE, or (part of the cases) an UPDATE that carries the tracepoint
+    g['grpc'].update = ([{'id': 'hit', 'path': h.files['probe'], 'line': h.marks['probe']['P'],
+                          'args': {'snapshot': 'no_collect', 'log_msg': 'hit {c}', 'fire_count': '-1', 'fire_period': '0'}}]
+                        if case.get('update') else None)
     probe = h.modules['probe'].probe
     trig = build_trigger('hit', h.files['probe'], h.marks['probe']['P'],
                          {'snapshot': 'no_collect', 'log_msg': 'hit {c}', 'fire_count': '-1', 'fire_period': '0'}, [], [])
@@ -246,7 +291,15 @@ def run_case(case, out):
                 for of in order_flags:
                     of[0] = False               # only the first start fails
                 if deep.started and not was:
-                    handler.new_config([trig])  # the first config arrives
+                    if case.get('update'):
+                        # the first poll answered UPDATE: wait until the update task has installed the tracepoint
+                        t0 = time.time()
+                        while not handler._tp_config and time.time() - t0 < 20:
+                            time.sleep(0.002)
+                        if not handler._tp_config:
+                            raise core.Infra('the UPDATE of the fake service was not applied within 20 s')
+                    else:
+                        handler.new_config([trig])  # the first config arrives
                 snapshot('start', {'raised': raised, 'was_started': was,
                                    'same_timer': deep.poll.timer is timer_before,
                                    'constructed': len([e for e in rec.events if e[1] == 'construct']) - constructed,
@@ -434,9 +487,95 @@ def run_case(case, out):
                 d.poll.shutdown()
         except BaseException:       # noqa: B902
             pass
+        dmod.load_plugins = orig_load
+        g['grpc'].update = None
         sys.settrace(None)
         threading.settrace(old_thr)
         sys.modules.pop(modname, None)
+
+
+def run_handler(case, out):
+    """TriggerHandler.start / shutdown driven directly (no Deep around it)"""
+    from deep.config import ConfigService
+    from deep.config.tracepoint_config import TracepointConfigService
+    from deep.processor.trigger_handler import TriggerHandler
+    from deep.push.push_service import PushService
+    old_thr = threading.gettrace()
+    try:
+        sys.settrace(fc_env.host_trace_function(1) if case['pre_sys'] else None)
+        threading.settrace(fc_env.host_trace_function(2) if case['pre_thr'] else None)
+        handler = TriggerHandler(ConfigService({'APP_ROOT': '/app'}, tracepoints=TracepointConfigService()),
+                                 PushService(None, None))
+        states = []
+        for op in case['ops']:
+            raised = None
+            try:
+                if op['op'] == 'start':
+                    handler.start()
+                elif op['op'] == 'shutdown':
+                    handler.shutdown()
+                else:
+                    sys.settrace(fc_env.host_trace_function(op['sys']) if op['sys'] is not None else None)
+                    threading.settrace(fc_env.host_trace_function(op['thr']) if op['thr'] is not None else None)
+            except BaseException as e:      # noqa: B902
+                raised = type(e).__name__
+            states.append({'op': op['op'], 'sys': hook_tag(sys.gettrace(), handler),
+                           'thr': hook_tag(threading.gettrace(), handler), 'raised': raised})
+        out['states'] = states
+    finally:
+        sys.settrace(None)
+        threading.settrace(old_thr)
+
+
+def run_other_thread(case, out):
+    """start() on thread A, shutdown() on thread B (which may have a trace function of its own)"""
+    from deep.api import Deep
+    from deep.config import ConfigService
+    from deep.config.tracepoint_config import TracepointConfigService
+    G()
+    custom = {'APP_ROOT': '/app', 'POLL_TIMER': 5, 'PLUGINS': [], 'SERVICE_URL': 'fake:1', 'SERVICE_SECURE': 'False',
+              'PLUGIN_OTELPLUGIN': 'False', 'PLUGIN_PYTHONPLUGIN': 'False', 'PLUGIN_PROMETHEUSPLUGIN': 'False',
+              'PLUGIN_OTELMETRICS': 'False'}
+    old_thr = threading.gettrace()
+    deep = Deep(ConfigService(custom, tracepoints=TracepointConfigService()))
+    handler = deep.trigger_handler
+    go, done = threading.Event(), threading.Event()
+    res = {}
+    own = fc_env.host_trace_function(7) if case.get('own_hook') else None
+
+    def a():
+        try:
+            res['a_before'] = hook_tag(sys.gettrace(), handler)
+            deep.start()
+            res['a_started'] = hook_tag(sys.gettrace(), handler)
+            go.set()
+            done.wait(30)
+            res['a_after'] = hook_tag(sys.gettrace(), handler)
+        finally:
+            go.set()
+            sys.settrace(None)
+
+    def b():
+        try:
+            go.wait(30)
+            sys.settrace(own)
+            deep.shutdown()
+            res['b_after'] = hook_tag(sys.gettrace(), handler)
+            res['started'] = bool(deep.started)
+        finally:
+            sys.settrace(None)
+            done.set()
+    try:
+        ta, tb = threading.Thread(target=a), threading.Thread(target=b)
+        ta.start(); tb.start()
+        ta.join(60); tb.join(60)
+        if ta.is_alive() or tb.is_alive():
+            raise core.Infra('other-thread case did not finish')
+    finally:
+        threading.settrace(old_thr)
+        if deep.started:
+            deep.shutdown()
+    out['other'] = res
 
 
 def run_impl(case):
@@ -444,7 +583,12 @@ def run_impl(case):
 
     def body():
         try:
-            run_case(case, out)
+            if case.get('kind') == 'handler':
+                run_handler(case, out)
+            elif case.get('kind') == 'other_thread':
+                run_other_thread(case, out)
+            else:
+                run_case(case, out)
         except core.Infra as e:
             out['infra'] = str(e)
         except BaseException as e:      # noqa: B902
@@ -468,7 +612,28 @@ def oracle(case, obs):
     v = []
     if 'raised' in obs:
         return ['the harness could not drive the agent: ' + obs['raised']]
+    if case.get('kind') == 'other_thread':
+        r = obs['other']
+        if r.get('a_after') != r.get('a_before'):
+            v.append(f'after shutdown() (called on another thread) the thread that called start() still has trace function '
+                     f'{r.get("a_after")}, before start it had {r.get("a_before")}')
+        if r.get('b_after') != (7 if case.get('own_hook') else None):
+            v.append(f'the trace function of the thread that called shutdown() is now {r.get("b_after")}')
+        return v
     pre = (1 if case['pre_sys'] else None, 2 if case['pre_thr'] else None)
+    if case.get('kind') == 'handler':
+        tracing = False
+        for i, (op, st) in enumerate(zip(case['ops'], obs['states'])):
+            where = f'after op {i} (handler {st["op"]})'
+            if st['raised']:
+                v.append(f'{where}: raised {st["raised"]}')
+            if op['op'] == 'host_set':
+                pre = (op['sys'], op['thr'])
+            tracing = {'start': True, 'shutdown': False}.get(op['op'], tracing)
+            want = ('agent', 'agent') if tracing else pre
+            if (st['sys'], st['thr']) != want:
+                v.append(f'{where}: the trace functions are {(st["sys"], st["thr"])}, expected {want}')
+        return v
     plugs = ['P99'] + [f'P{i}' for i in range(case['nplug'])]
     stopped_once = False
     for i, st in enumerate(obs['states']):
@@ -487,9 +652,10 @@ def oracle(case, obs):
                 v.append(f'{where}: agent not started but the trace functions are {hooks}, expected the ones present '
                          f'before the (last) start {pre}')
         if st['op'] == 'start':
-            if st['raised'] and not case.get('start_fails_first'):
-                v.append(f'{where}: start() raised {st["raised"]}')
-            if not st['raised'] and not st['started']:
+            first_fails = case.get('start_fails_first') and not any(s2['op'] == 'start' for s2 in obs['states'][:i])
+            if st['raised'] and not first_fails:
+                v.append(f'{where}: start() raised {st["raised"]} into the application')
+            if not st['raised'] and not st['started'] and not stopped_once:
                 v.append(f'{where}: start() returned but the agent is not started')
             if st['was_started'] and (not st['same_timer'] or st['constructed']):
                 v.append(f'{where}: a repeated start() did something (new timer: {not st["same_timer"]}, '
@@ -536,8 +702,11 @@ def oracle(case, obs):
 
 
 def model_request(case, obs):
-    if 'raised' in obs or case.get('start_fails_first'):
+    if 'raised' in obs or case.get('start_fails_first') or case.get('kind') == 'other_thread':
         return None
+    if case.get('kind') == 'handler':
+        return {'op': 'handler', 'init': {'sys': 1 if case['pre_sys'] else None, 'thr': 2 if case['pre_thr'] else None},
+                'ops': case['ops']}
     ops = []
     for op in case['ops']:
         k = op['op']
@@ -563,6 +732,9 @@ def model_request(case, obs):
 def compare(case, obs, resp):
     if 'error' in resp:
         return ['model error: ' + resp['error']]
+    if case.get('kind') == 'handler':
+        return [f'handler op {i}: hooks model {(m["sys"], m["thr"])} vs implementation {(st["sys"], st["thr"])}'
+                for i, (m, st) in enumerate(zip(resp['states'], obs['states'])) if (m['sys'], m['thr']) != (st['sys'], st['thr'])]
     d = []
     ms = resp['states']
     j = 0
@@ -604,15 +776,19 @@ def compare(case, obs, resp):
 
 
 def label(case, obs):
+    if case.get('kind'):
+        return 'known-finding-stream/other-thread' if case['kind'] == 'other_thread' else 'handler-cycles'
     sd = [o for o in case['ops'] if o['op'] == 'shutdown']
     f = sd[0] if sd else {}
-    return ('notrace' if case['no_trace'] else 'trace') + '/' + \
+    return ('notrace' if case['no_trace'] else 'trace') + ('/update' if case.get('update') else '') + '/' + \
            ('pre' if (case['pre_sys'] or case['pre_thr']) else 'nopre') + '/' + \
            (f'faults{len(f.get("plugin_faults", [])) + len(f.get("task_faults", []))}' if sd else 'noshutdown') + \
            ('/retry' if case.get('start_fails_first') else '')
 
 
 def nontrivial(case, obs):
+    if case.get('kind'):
+        return case['kind'] == 'handler' and any(o['op'] == 'host_set' for o in case['ops'])
     sd = [o for o in case['ops'] if o['op'] == 'shutdown']
     return bool(case['no_trace'] or case['pre_sys'] or case['pre_thr'] or
                 any(o.get('plugin_faults') or o.get('task_faults') for o in sd))
@@ -632,6 +808,8 @@ def valid(case):
 
 
 def shrink(case):
+    if case.get('kind'):
+        return
     ops = case['ops']
     for i in range(len(ops)):
         c = dict(case)
